@@ -312,7 +312,9 @@ def em_transform(vb, ascender, descender, width, user=I, advance=None):
     """Affine taking viewBox coordinates to font units (y up) as C01 states it; returns (affine, advance)."""
     s = (ascender - descender) / vb[3]
     if advance is None:
-        advance = max(width, int(math.floor((ascender - descender) * vb[2] / vb[3] + 0.5)))
+        # "round(em height x viewBox width / viewBox height)": Python's round (ties to even), as the tool computes it; C04 accepts
+        # either rounding of an exact tie for the advance itself, the picture is centred in the advance the font really has
+        advance = max(width, int(round((ascender - descender) * vb[2] / vb[3])))
     dx = (advance - s * vb[2]) / 2.0
     m = (s, 0.0, 0.0, -s, dx - vb[0] * s, ascender + vb[1] * s)
     return amul(tuple(float(v) for v in user), m), advance
